@@ -3,7 +3,7 @@
 # Independently confirms a seeded change in the scratch worktree /tmp/ev:
 #   suite passes with the change, demo fails with it, demo passes without it.
 # On success copies patch/demo/notes into /verif/seeded/<id>-<k>/ and writes meta.json.
-ID="$1"; K="$2"; WT=/tmp/ev; OUT=/tmp/o5_$ID; DEST=/verif/seeded/$ID-$K
+ID="$1"; K="$2"; WT=${WT:-/tmp/ev}; OUT=/tmp/o5_$ID; DEST=/verif/seeded/$ID-$K
 cd "$WT" || exit 2
 git checkout -q -- . ; git clean -qfd
 export PYTHONPATH=$WT/src
